@@ -180,7 +180,7 @@ type c16Spec struct {
 	CascGap string `json:"cascade_vs_new_source"` // behind equal ahead
 }
 
-var c16Events = []string{"source_dies", "source_lags", "source_returns_behind", "all_ha_replicas_dead", "switch_request", "reconfigure", "convert_at_outage", "collector_query_fails_on_cascade", "config_read_fails"}
+var c16Events = []string{"source_dies", "source_lags", "source_returns_behind", "all_ha_replicas_dead", "switch_request", "reconfigure", "convert_at_outage", "collector_query_fails_on_cascade", "config_read_fails", "convert_streams_from_master"}
 
 func c16Sim(u *Unit) {
 	r := rand.New(rand.NewSource(u.Seed))
@@ -363,6 +363,26 @@ func c16Sim(u *Unit) {
 			cmu.Unlock()
 			time.Sleep(60 * time.Second)
 			sc.Cover("converted-during-outage")
+		case "convert_streams_from_master":
+			// the operator turns an active HA replica (semi-sync replica plugin on) into a cascade replica that streams
+			// from the master itself: it is no member any more, so within a few iterations it must stop acknowledging the
+			// master's commits - a host that can never be promoted is not counted towards any quorum
+			x := hosts[len(hosts)-1]
+			s.ZK.Remove("operator", NS+"/ha_nodes/"+x)
+			s.ZK.Put("operator", NS+"/cascade_nodes/"+x, fmt.Sprintf(`{"stream_from":%q}`, hosts[0]))
+			cmu.Lock()
+			casc[x] = hosts[0]
+			cmu.Unlock()
+			time.Sleep(30 * time.Second)
+			w.Lock()
+			cx := w.Servers[x]
+			acking := cx.Up && cx.SSSlave && cx.Source == hosts[0] && cx.IORun
+			desc := w.DescribeLocked()
+			w.Unlock()
+			if acking && !contains(s.ActiveNodes(), x) {
+				sc.Violate("C16", "cascade-replica-keeps-acknowledging-the-master", fmt.Sprintf("30 s (six manager iterations) after %s became a cascade replica of the master it is outside the published list %v and still has the semi-sync replica plugin on: its acknowledgements count for the master's wait count", x, s.ActiveNodes()), desc)
+			}
+			sc.Cover("ha-replica-converted-to-cascade-of-the-master")
 		case "collector_query_fails_on_cascade":
 			// for half a minute one of the last queries of the state collection fails on the (healthy) cascade replica while
 			// it answers pings: the manager's picture of it is incomplete, its role is not
@@ -458,7 +478,7 @@ func c16Run(u *Unit) {
 func init() {
 	register(&Prop{ID: "C16", Units: func(tier string) int { return tierN(tier, 8, 32) + tierN(tier, 150, 3000) }, Run: c16Run,
 		Floor: func(string) []string {
-			return []string{"cascade-moved", "move:candidate-ahead", "only-cascade-alive", "switch-with-cascade", "cascade-configuration-read-failed"}
+			return []string{"cascade-moved", "move:candidate-ahead", "only-cascade-alive", "switch-with-cascade", "cascade-configuration-read-failed", "ha-replica-converted-to-cascade-of-the-master"}
 		},
 		Rule: "resolution: random stream_from maps over 2-5 hosts (chains, cycles, self references, unregistered hosts, HA nodes as sources) x ping/offline/role/replication/lag of every host x current source of the replica, the real findBestStreamFrom compared with an independent chain walk under a termination watchdog; cluster part: cascade replicas (one or a two-level chain) while their source dies, lags, returns behind, is reconfigured, all HA replicas die, switch requests name them; every CHANGE SOURCE at a cascade replica is judged on ground truth (new source contains its transactions unless it had no working replication), lists, promotions and automatic requests against cascade hosts; distinct by the cover tuples"})
 }
